@@ -19,7 +19,8 @@ FUNCTIONS = ["klongpy.db.file_cache.FileCache.%s" % m for m in
 ASSUMPTIONS = [
     "actors run on real threads, one at a time; a symbolic choice at every preemption point decides who continues (preemption-bounded)",
     "preemption points: start of every client call, start of every executor task, every open/read/write/close of the model file system, "
-    "every wait for a future; never while the cache lock is held (a real contender would block there)",
+    "every wait for a future, and (in the lock-point obligations) right before every acquisition of the cache lock; never while the "
+    "cache lock is held (a real contender would block there)",
     "threading.Lock acquisition is atomic; executor = one task actor per submit; contents, sizes and the memory limit are concrete",
 ]
 OUTSIDE = ["more preemptions than the bound", "real OS scheduling / timing", "crashes (C17)"]
@@ -129,6 +130,7 @@ def concurrent(o1: int, o2: int, o3: int, o4: int, o5: int, o6: int,
             raise _Redundant()           # the same schedule is reached with c < n: do not explore it twice
         return pick(list(range(n)), c)
     sch = S.Scheduler(choose, preemptions=CFG.get("preemptions", 2))
+    sch.lock_points = bool(CFG.get("lock_points", False))
     real_dir = None
     saved_lock = FC.Lock
     try:
@@ -310,6 +312,10 @@ def obligations(tier):
         for a in range(6):
             obs.append({"name": "two files, clients [1 op | 1 op], first op %s" % (OPS[a],), "fn": "concurrent",
                         "cfg": {"shape": [1, 1], "preemptions": 3, "fixed_ops": [a]}, "timeout": 400})
+        for a in (0, 2, 4):
+            obs.append({"name": "one file, clients [1 op | 1 op], preemption also before every lock acquisition, first op %s" % (OPS[a],),
+                        "fn": "concurrent", "cfg": {"shape": [1, 1], "preemptions": 2, "fixed_ops": [a], "ops_domain": [0, 2, 4],
+                                                    "lock_points": True, "points": ["open-r", "read", "open-w", "write"]}, "timeout": 400})
     else:
         for a in range(6):
             for b in range(6):
